@@ -125,6 +125,15 @@ def gen_malformed(rng, n):
     return out
 
 
+# the witness of Props/C15.v C15_full_statement_refuted (replayed on the implementation on every run) and the
+# minimal witness of the trailing-comment finding
+FIXED_WITNESSES = [
+    ("shadow", "type t = int; proc p(t: t) { } proc main() { }",
+     [("type", "t", ("named", "int")), ("proc", "p", [(False, "t", ("named", "t"))], [], []), ("proc", "main", [], [], [])]),
+    ("valid", "proc main() { } // x", [("proc", "main", [], [], [])]),
+]
+
+
 # ---------------------------------------------------------------------------------------------
 # running the implementation
 
@@ -245,6 +254,7 @@ def run(ctx):
     corpus = load_corpus()
     docs = [("corpus", c["text"], None) for _, c in corpus]
     ncorpus = len(docs)
+    docs += FIXED_WITNESSES
     docs += gen_valid(rng, 2400 if th else 300)
     docs += gen_shadow(rng, 300 if th else 40)
     docs += gen_malformed(rng, 9000 if th else 1200)
